@@ -22,7 +22,7 @@ class SmoothedBoxPrior(Prior):
         \begin{equation*}
             B = {x: a_i <= x_i <= b_i}
             d(x, B) = min_{x' in B} |x - x'|
-            pdf(x) \sim exp(- d(x, B)**2 / sqrt(2 * sigma^2))
+            pdf(x) \sim exp(- d(x, B)**2 / (2 * sigma^2))
         \end{equation*}
 
     """
